@@ -56,6 +56,8 @@ TARGETS = [
     # the per-site decision of setPhosPhoSites' loop (what is appended to self.phosphosites, if anything) and the S/T/Y letter lists
     ("localcider/backend/sequence.py", "Sequence", "setPhosPhoSites", "setSiteSrc", "C16Src", {"siteloop": True}),
     ("localcider/backend/sequence.py", "Sequence", "get_STY_residues", "stySrc", "C16Src", {"letters": True}),
+    # the per-character decision of validateSequence's loop: append / drop / raise
+    ("localcider/backend/sequence.py", "Sequence", "validateSequence", "validateCharSrc", "C13Val", {"validateloop": True}),
 ]
 # the interface (parameter list) each translated fragment had when the CxxSrc proofs were written: the quantities of the object the text
 # reads.  A rewrite that reads other quantities (a new private helper, a cached count, ...) no longer FITS the statement of the proof -
@@ -482,6 +484,87 @@ class SiteLoop:
         raise Unsupported("statement %s" % type(s).__name__)
 
 
+class ValidateLoop:
+    """body of `for i in seq:` in validateSequence -> .ok true (the character is appended to the returned string), .ok false (dropped),
+    .error () (raise).  Bookkeeping that cannot influence that (counters, warn-once flags, messages) is skipped; an `if` on such a flag must
+    have the same outcome in both branches."""
+
+    def __init__(self, f, loop):
+        rets = [x for x in f.body if isinstance(x, ast.Return)]
+        if len(rets) != 1 or not isinstance(rets[0].value, ast.Name) or not isinstance(loop.target, ast.Name) or loop.orelse:
+            raise Unsupported("shape")
+        self.acc, self.var = rets[0].value.id, loop.target.id
+        self.params = []
+        self.body = self.block(list(loop.body), 1)
+        init = [x for x in f.body if isinstance(x, ast.Assign) and isinstance(x.targets[0], ast.Name) and x.targets[0].id == self.acc]
+        pool = [x for x in f.body if isinstance(x, ast.Assign) and isinstance(x.targets[0], ast.Name) and x.targets[0].id == self.pool]
+        if len(init) != 1 or len(pool) != 1:
+            raise Unsupported("initialisations")
+        self.frame = "%s|%s" % (ast.unparse(init[0].value), ast.unparse(pool[0].value))
+
+    pool = None
+
+    def param(self, n):
+        if n not in self.params:
+            self.params.append(n)
+        return n
+
+    def cond(self, e):
+        """returns lean text, or None for a bookkeeping flag"""
+        if isinstance(e, ast.UnaryOp) and isinstance(e.op, ast.Not):
+            c = self.cond(e.operand)
+            return None if c is None else "(¬ %s)" % c
+        if isinstance(e, ast.Name) and e.id not in (self.var, self.acc):
+            return None
+        if isinstance(e, ast.Compare) and len(e.ops) == 1 and isinstance(e.ops[0], (ast.In, ast.NotIn)) and isinstance(e.left, ast.Name) \
+                and e.left.id == self.var and isinstance(e.comparators[0], ast.Name):
+            if self.pool not in (None, e.comparators[0].id):
+                raise Unsupported("two pools")
+            self.pool = e.comparators[0].id
+            return "(%s = %s)" % (self.param("in_AAs"), "true" if isinstance(e.ops[0], ast.In) else "false")
+        if isinstance(e, ast.Call) and isinstance(e.func, ast.Attribute) and e.func.attr == "isspace" and isinstance(e.func.value, ast.Name) \
+                and e.func.value.id == self.var and not e.args:
+            return "(%s = true)" % self.param("is_space")
+        raise Unsupported("condition")
+
+    def block(self, stmts, ind):
+        pad = "  " * ind
+        if not stmts:
+            return pad + ".ok false"
+        s, rest = stmts[0], stmts[1:]
+        if isinstance(s, ast.Pass) or (isinstance(s, ast.Expr) and isinstance(s.value, ast.Constant)):
+            return self.block(rest, ind)
+        if isinstance(s, ast.Expr) and isinstance(s.value, ast.Call) and isinstance(s.value.func, ast.Name) and s.value.func.id in SKIP_CALLS:
+            return self.block(rest, ind)
+        if isinstance(s, ast.Raise):
+            return pad + ".error ()"
+        if isinstance(s, (ast.Assign, ast.AugAssign)):
+            tgt = s.targets[0] if isinstance(s, ast.Assign) else s.target
+            if not isinstance(tgt, ast.Name):
+                raise Unsupported("assignment target")
+            names = {n.id for n in ast.walk(s.value) if isinstance(n, ast.Name)}
+            if tgt.id == self.acc:
+                v = s.value
+                ok = (isinstance(s, ast.AugAssign) and isinstance(s.op, ast.Add) and isinstance(v, ast.Name) and v.id == self.var) or \
+                     (isinstance(s, ast.Assign) and isinstance(v, ast.BinOp) and isinstance(v.op, ast.Add) and isinstance(v.left, ast.Name)
+                      and v.left.id == self.acc and isinstance(v.right, ast.Name) and v.right.id == self.var)
+                if not ok or rest:
+                    raise Unsupported("accumulator update")
+                return pad + ".ok true"
+            if tgt.id == self.var or self.acc in names:
+                raise Unsupported("assignment touches the character or the result")
+            return self.block(rest, ind)            # counters / flags
+        if isinstance(s, ast.If):
+            c = self.cond(s.test)
+            t, f_ = self.block(s.body + rest, ind + 1), self.block(s.orelse + rest, ind + 1)
+            if c is None:
+                if t != f_:
+                    raise Unsupported("a bookkeeping flag decides the outcome")
+                return self.block(s.body + rest, ind)
+            return pad + "if %s then\n%s\n%selse\n%s" % (c, t, pad, f_)
+        raise Unsupported("statement %s" % type(s).__name__)
+
+
 def find_func(tree, cls, name):
     plain = name.split("__")[-1] if name.startswith("_" + cls + "__") else name
     for n in tree.body:
@@ -503,6 +586,19 @@ def main():
             args = [a.arg for a in f.args.args if a.arg != "self"]
             opt = rest_t[0] if rest_t else ()
             stmts = f.body
+            if isinstance(opt, dict) and opt.get("validateloop"):
+                loops = [x for x in f.body if isinstance(x, ast.For)]
+                if len(loops) != 1:
+                    raise Unsupported("expected exactly one top-level for loop")
+                vl = ValidateLoop(f, loops[0])
+                if vl.params != ["in_AAs", "is_space"]:
+                    raise Unsupported("the text now reads (%s), the proof is stated over (in_AAs, is_space)" % ", ".join(vl.params))
+                defs.append("/-- translated from %s:%s.%s (loop at line %d) -/\ndef %s (in_AAs : Bool) (is_space : Bool) : Except Unit Bool :=\n%s\n\n"
+                            "/-- initial value of the returned string | what the pool of accepted characters is built from -/\n"
+                            "def %sFrame : String := \"%s\"\n" % (path, cls, fn, loops[0].lineno, lean_name, vl.body, lean_name,
+                                                                  vl.frame.replace("\\", "\\\\").replace('"', '\\"')))
+                info[lean_name] = vl.params
+                continue
             if isinstance(opt, dict) and opt.get("letters"):
                 defs.append(("/-- translated from %s:%s.%s (line %d) -/\n" % (path, cls, fn, f.lineno)) + letters_of(f, lean_name))
                 info[lean_name] = []
